@@ -81,8 +81,16 @@ claim("C08",
       TRUST + "; the composition of the lemmas is a written argument", "symbolic execution of dissect.util.stream."
       "AlignedStream and the readers + z3", "4.8")
 
+claim("C13",
+      "On every path of the read harnesses the total number of bytes and of calls the reader issues to the (symbolic) file "
+      "during open + read is shown by z3 to be bounded by a term of header fields and the request only, so a scan or an "
+      "eager load that grows with the allocated data violates it for some table size; all offsets are 64-bit symbolic, and "
+      "witness images with tables/data beyond 2^40 bytes and sectors beyond 2^32 are solved for and replayed through the "
+      "real readers over a sparse in-memory file.",
+      TRUST, "symbolic execution with I/O accounting on the symbolic file + z3 bound obligations; wide-offset witnesses", "4.13")
+
 PENDING = "check not built yet in this round (planned: see DESIGN.md section 4)"
-for _p in ( "C09", "C10", "C11", "C13", "C14", "C15", "C17", "C20"):
+for _p in ( "C09", "C10", "C11", "C14", "C15", "C17", "C20"):
     NOT_APPLICABLE[_p] = PENDING
 NOT_APPLICABLE["C16"] = ("the property's content (cstruct writers, AES-GCM, PBKDF2) sits behind C boundaries that would have "
                          "to be stubbed; nothing of the repository's own arithmetic would remain to be decided (DESIGN 5)")
